@@ -12,7 +12,7 @@ META = {
     'text': 'Decides for tarpc\'s own code that no value chosen by the peer (anything read from the transport or produced by a Deserialize impl) or by a local caller (the context of a call) '
             'reaches a partial operation unsanitised: Instant/SystemTime +/- Duration, Duration arithmetic, DelayQueue::insert/reset, rfc3339 rendering, integer division/remainder, '
             'indexing and slicing (for strings also the content: char boundaries), copy_from_slice, split_at, removal/insertion by index, capacity requests, and unwrap/expect; taint flows through aggregates, lengths, adaptors and combinator closures. The five sites of defect D2 (decode overflow, two timer arms, two span renderings) are the instances this rule reports when the clamp is removed. '
-            'Request ids only ever reach total operations (map keys, equality). Every explicit panic site in the crate is inventoried with the provenance of its operand. The server end never goes idle without the transport read registered, whatever was ignored before (C16.serve, every decorator chain; back-pressure from a blocked sink is D5 and not judged here). '
+            'Request ids only ever reach total operations (map keys, equality). Every explicit panic site in the crate is inventoried with the provenance of its operand. The message pumps (server channel, request stream, client dispatch) do not re-enter themselves through a transport read: stack depth does not grow with the number of consecutive messages (C16.recursion). The server end never goes idle without the transport read registered, whatever was ignored before (C16.serve, every decorator chain; back-pressure from a blocked sink is D5 and not judged here). '
             'NOT decided (not applicable to static analysis of tarpc): behaviour of the framed decoders on arbitrary byte strings (tokio-util, tokio-serde, serde_json, bincode) and allocation exhaustion.',
     'note': 'Trusted: the partial-operation table (std Instant/SystemTime/Duration arithmetic panics on overflow, DelayQueue::insert panics beyond its range, humantime fails past year 9999), '
             'Instant::duration_since saturates. External decoders are out of scope.',
@@ -366,6 +366,54 @@ def run(ctx):
     from .C11 import timer_removed_with_entry
     n_partial += timer_removed_with_entry(ctx, 'C16.partial', 'client')
     n_partial += timer_removed_with_entry(ctx, 'C16.partial', 'server')
+    # no recursion whose depth the peer controls: a message pump that re-enters itself per message read (instead of looping) grows the stack by one frame for every
+    # consecutive frame the transport has buffered — a burst of ignorable messages then overflows the stack and aborts the process
+    from .common import client_dispatch_poll
+    entries = [F.trait_method('Stream', 'server::BaseChannel', 'poll_next'), F.trait_method('Stream', 'server::Requests', 'poll_next'), client_dispatch_poll(F)]
+    graph = {}
+
+    def succs(g):
+        if g.id not in graph:
+            out_ = set()
+            for x in F.with_descendants(g):
+                for _, t in x.calls():
+                    c = F.callee_fn(t)
+                    if c is not None and not F.is_derived(c):
+                        item_ = F.enclosing_item(c)
+                        if c.kind == 'Closure' and item_ is not None and item_.id == g.id:
+                            continue     # calling one of its own closures is not re-entering the function (their bodies are already part of it)
+                        out_.add(item_.id if item_ is not None else c.id)
+            graph[g.id] = out_
+        return graph[g.id]
+    seen_, work = set(), [e.id for e in entries if e is not None]
+    while work:
+        gid = work.pop()
+        if gid in seen_ or gid not in F.fns:
+            continue
+        seen_.add(gid)
+        work.extend(succs(F.fns[gid]))
+
+    def reaches(a, b, lim=2000):
+        st, vis = [a], set()
+        while st and lim:
+            lim -= 1
+            x = st.pop()
+            for y in graph.get(x, ()):
+                if y == b:
+                    return True
+                if y not in vis and y in graph:
+                    vis.add(y)
+                    st.append(y)
+        return False
+    cyc = sorted(gid for gid in seen_ if reaches(gid, gid))
+    reads = lambda gid: any(callee_is(t, 'Stream::poll_next', 'poll_next_unpin') and 'Fuse<' in (t.get('self_ty') or '') + ''.join(t.get('arg_tys') or []) for x in F.with_descendants(F.fns[gid]) for _, t in x.calls())
+    peer_driven = [gid for gid in cyc if any(reads(y) for y in cyc if reaches(gid, y) or y == gid)]
+    R.count('pump_functions_checked_for_recursion', len(seen_))
+    R.ob('C16.recursion', ('message pumps', 'no recursion driven by messages read'), not peer_driven,
+         'the functions that read and dispatch the peer\'s messages loop, they do not re-enter themselves: stack depth does not grow with the number of consecutive messages the peer sends',
+         [F.fns[g].loc(F.fns[g].d) for g in peer_driven])
+    if cyc and not peer_driven:
+        raise CannotDecide('recursion among %s (not through a transport read): depth not bounded by this analysis' % cyc[:3])
     # "keeps serving well-formed traffic": whatever the peer sent (duplicates, cancels for unknown ids, floods of either), the server end never goes idle without
     # the transport read registered — a yield / early return that forgets the waker would leave the rest of the peer's traffic unread for good.  (Back-pressure
     # from a response sink that is not ready is a different matter and not judged here.)
